@@ -1,10 +1,19 @@
 /-
 C16  Boudot range proof (src/cl03/range_proof.rs).
 
+Parameters after the F13 repair (commit 1ef28bc): decomposition points `aa = 2^T·a`, `bb = 2^T·b`,
+remainder bound `b₂ = 2·⌊√(2^T·(b−a))⌋` (`tolB2`), responses accepted in `[c·b₂, 2^(t+l)·b₂ − 1]`.
+
 Completeness (every tape on which the prover returns a proof, every `a < b`, every suite):
-`tolerance_lt`, `scaled_in_range_iff`, `same_secret_complete`, `square_complete`,
+`scaled_le_iff`, `honest_remainders_within_bound`, `same_secret_complete`, `square_complete`,
 `large_interval_complete`, `tolerance_complete`, `range_complete` (+ `range_complete_nonneg` with
 plain congruence hypotheses), `prover_in_range`, `honest_out_of_range(_panics)`.
+(`tolerance_lt`, `scaled_in_range_iff` are facts about the OLD widened interval, kept as arithmetic.)
+
+Why the repair (section 7, pure arithmetic over `Int`/`Nat`, arbitrary `t l`):
+`remainder_bound_lt_pow` (new tolerance `2^(t+l)·b₂ − 1 < 2^T`), `large_interval_extract_bound`,
+`range_sound_arith`, `extracted_value_in_range`, `old_parameters_accept_out_of_range` (F13 witness),
+`new_parameters_reject_out_of_range`, `at_most_one_challenge`.
 
 What the verifier pins down (characterisations, read off the verifier):
 `square_bound` (the F8 fix: the square proofs speak about `Ea1`, `Eb1`, and
@@ -25,16 +34,41 @@ open Zk.IA Zk.Cl Zk.ClRange
 
 /-! ### 1. the tolerance -/
 
-/-- **θ < 2^T.** With `T = 2(t+l+1) + bitLen(b−a)` and `θ = 2^(l+t+T/2+1)·⌊√(b−a)⌋`. -/
+/-- **θ < 2^T** (arithmetic of the parameters used BEFORE the F13 repair; the model no longer
+widens the interval by `θ`). With `T = 2(t+l+1) + bitLen(b−a)` and `θ = 2^(l+t+T/2+1)·⌊√(b−a)⌋`. -/
 theorem tolerance_lt (hA : ArithOK) (a b : Int) (t l : Nat) (hab : a ≤ b) :
     (2 : Int) ^ (l + t + (2 * (t + l + 1) + bitLen (b - a)) / 2 + 1) * Int.ofNat (isqrt (b - a).toNat)
       < 2 ^ (2 * (t + l + 1) + bitLen (b - a)) :=
   ClRange.tolerance_lt hA a b t l hab
 
-/-- Hence, for integers, `2^T·x` lies in the widened scaled interval exactly when `x ∈ [a, b]`. -/
+/-- Hence, for integers, `2^T·x` lies in the widened scaled interval exactly when `x ∈ [a, b]`
+(old parameters; with `θ = 0` this is `scaled_le_iff`). -/
 theorem scaled_in_range_iff {T : Nat} {θ a b x : Int} (h0 : 0 ≤ θ) (hlt : θ < 2 ^ T) :
     (2 ^ T * a - θ ≤ 2 ^ T * x ↔ a ≤ x) ∧ (2 ^ T * x ≤ 2 ^ T * b + θ ↔ x ≤ b) :=
   ClRange.scaled_in_range_iff h0 hlt
+
+/-- The decomposition points of the model are `2^T·a`, `2^T·b`: `2^T·x` lies between them exactly
+when `x ∈ [a, b]`. -/
+theorem scaled_le_iff {T : Nat} {a b x : Int} :
+    (2 ^ T * a ≤ 2 ^ T * x ↔ a ≤ x) ∧ (2 ^ T * x ≤ 2 ^ T * b ↔ x ≤ b) :=
+  ⟨ClRange.scaled_le_iff, ClRange.scaled_le_iff⟩
+
+/-- **Every honest remainder is within the bound.** For `x ∈ [a, b]` both remainders
+`xa₂ = xa − ⌊√xa⌋²` (`xa = 2^T·x − 2^T·a`) and `xb₂` (`xb = 2^T·b − 2^T·x`) lie in `[0, b₂]`,
+`b₂ = 2·⌊√(2^T·(b−a))⌋`, so Algorithm 5 is run on a secret inside the interval it is made for. -/
+theorem honest_remainders_within_bound (hA : ArithOK) {T : Nat} {a b x : Int} (hax : a ≤ x)
+    (hxb : x ≤ b) :
+    (0 ≤ (2 ^ T * x - 2 ^ T * a) - (Int.ofNat (isqrt (2 ^ T * x - 2 ^ T * a).toNat)) ^ 2 ∧
+      (2 ^ T * x - 2 ^ T * a) - (Int.ofNat (isqrt (2 ^ T * x - 2 ^ T * a).toNat)) ^ 2
+        ≤ tolB2 T a b) ∧
+    (0 ≤ (2 ^ T * b - 2 ^ T * x) - (Int.ofNat (isqrt (2 ^ T * b - 2 ^ T * x).toNat)) ^ 2 ∧
+      (2 ^ T * b - 2 ^ T * x) - (Int.ofNat (isqrt (2 ^ T * b - 2 ^ T * x).toNat)) ^ 2
+        ≤ tolB2 T a b) := by
+  have hp : (0 : Int) < 2 ^ T := by positivity
+  have h1 := mul_le_mul_of_nonneg_left hax hp.le
+  have h2 := mul_le_mul_of_nonneg_left hxb hp.le
+  exact ⟨honest_remainder_le hA (by linarith) (by linarith),
+    honest_remainder_le hA (by linarith) (by linarith)⟩
 
 /-! ### 2. sub-protocol completeness -/
 
@@ -57,13 +91,14 @@ theorem square_complete (hA : ArithOK) {n : Int} (hn : 1 < n) {g h E x r1 : Int}
     verifyOfSquare π g h n tq = .ok (true, tq) ∧ π.E = E :=
   ClRange.square_complete hA hn hg hh hE hp tq
 
-/-- **Algorithms 5/6.** The rejection loop exits only when `c·b ≤ D1 ≤ 2^T(2^(t+l)·b − 1)`, which
-is the verifier's bound (F11 fixed). -/
+/-- **Algorithms 5/6.** The rejection loop exits only when `c·b ≤ D1 ≤ 2^(t+l)·b − 1`, which
+is the verifier's bound (F11 fixed; after F13 without the factor `2^T`). Algorithms 7/8 call it with
+`b = b₂ = 2·⌊√(2^T·(b−a))⌋`. -/
 theorem large_interval_complete (hA : ArithOK) {n : Int} (hn : 1 < n) {g h E x r : Int}
     {u v : (ZMod n.toNat)ˣ} (hg : Rep n g u) (hh : Rep n h v) (hE : Rep n E (u ^ x * v ^ r))
     {t l : Nat} {b : Int} {s T : Nat} {tp tp' : List Draw} {π : ProofLi}
     (hp : proofLargeIntervalSpecific x r g h t l b s n T tp = .ok (π, tp')) (tq : List Draw) :
-    verifyLargeIntervalSpecific π E g h n t l b T tq = .ok (true, tq) :=
+    verifyLargeIntervalSpecific π E g h n t l b tq = .ok (true, tq) :=
   ClRange.large_interval_complete hA hn hg hh hE hp tq
 
 /-- **Algorithms 7/8.** -/
@@ -113,8 +148,8 @@ theorem prover_in_range (hA : ArithOK) (cs : Suite) {n g h x a b : Int} {c : Com
     (hp : rangeProve cs x c g h n a b tp = .ok (π, tp')) : a < b ∧ a ≤ x ∧ x ≤ b :=
   ClRange.prover_in_range hA cs hp
 
-/-- For ANY integer outside `[a, b]` (not just far outside: the tolerance `θ` is below `2^T`)
-the honest prover returns no proof, whatever the tape. -/
+/-- For ANY integer outside `[a, b]` (not just far outside: the decomposition points are exactly
+`2^T·a`, `2^T·b`) the honest prover returns no proof, whatever the tape. -/
 theorem honest_out_of_range (hA : ArithOK) (cs : Suite) {n g h x a b : Int} {c : Commitment}
     (hx : x < a ∨ b < x) (tp : List Draw) (r : RangeProof × List Draw) :
     rangeProve cs x c g h n a b tp ≠ .ok r :=
@@ -177,8 +212,9 @@ theorem range_complete_commit_pk (hA : ArithOK) (cs : Suite) {pk : PublicKey} (h
 
 /-- **The F8 fix, as a statement.** An accepted range proof satisfies: `Eprime = E^(2^T) mod n`;
 the two square proofs are about `Ea1` and `Eb1` (`squareA.E = Ea1`, `squareB.E = Eb1`) and verify;
-the two interval proofs verify against `Ea2`, `Eb2`; and the four commitments decompose the
-verified commitment: `g^aa·Ea1·Ea2 ≡ Eprime` and `Eprime·Eb1·Eb2 ≡ g^bb (mod n)`. -/
+the two interval proofs verify against `Ea2`, `Eb2` with the bound `b₂ = 2·⌊√(2^T·(b−a))⌋`
+(`tolB2 T a b`, F13 fixed); and the four commitments decompose the verified commitment:
+`g^aa·Ea1·Ea2 ≡ Eprime` and `Eprime·Eb1·Eb2 ≡ g^bb (mod n)` with `aa = 2^T·a`, `bb = 2^T·b`. -/
 theorem square_bound (hA : ArithOK) {cs : Suite} {π : RangeProof} {g h n a b : Int} (hn : 1 < n)
     {tq tq' : List Draw} (hv : rangeVerify cs π g h n a b tq = .ok (true, tq')) :
     let T := rangeT cs a b
@@ -186,11 +222,13 @@ theorem square_bound (hA : ArithOK) {cs : Suite} {π : RangeProof} {g h n a b : 
     π.tol.squareA.E = π.tol.Ea1 ∧ π.tol.squareB.E = π.tol.Eb1 ∧
     verifyOfSquare π.tol.squareA g h n tq = .ok (true, tq) ∧
     verifyOfSquare π.tol.squareB g h n tq = .ok (true, tq) ∧
-    verifyLargeIntervalSpecific π.tol.largeA π.tol.Ea2 g h n cs.t cs.l b T tq = .ok (true, tq) ∧
-    verifyLargeIntervalSpecific π.tol.largeB π.tol.Eb2 g h n cs.t cs.l b T tq = .ok (true, tq) ∧
+    verifyLargeIntervalSpecific π.tol.largeA π.tol.Ea2 g h n cs.t cs.l (tolB2 T a b) tq
+      = .ok (true, tq) ∧
+    verifyLargeIntervalSpecific π.tol.largeB π.tol.Eb2 g h n cs.t cs.l (tolB2 T a b) tq
+      = .ok (true, tq) ∧
     ∃ gaa gbb : Int,
-      powMod g (2 ^ T * a - tolTheta cs.t cs.l T a b) n = some gaa ∧
-      powMod g (2 ^ T * b + tolTheta cs.t cs.l T a b) n = some gbb ∧
+      powMod g (2 ^ T * a) n = some gaa ∧
+      powMod g (2 ^ T * b) n = some gbb ∧
       gaa * π.tol.Ea1 * π.tol.Ea2 ≡ π.Eprime [ZMOD n] ∧
       π.Eprime * π.tol.Eb1 * π.tol.Eb2 ≡ gbb [ZMOD n] := by
   intro T
@@ -274,20 +312,20 @@ theorem transplant (hA : ArithOK) {cs : Suite} {π π' : RangeProof} {g h n a b 
 
 /-- **Binding to bounds and first base.** If the same proof is accepted under `(g, h, a, b)` and
 under `(g', h', a', b')` (same modulus), then `g^bb ≡ g'^bb' (mod n)` where
-`bb = 2^T·b + θ`, `bb' = 2^T'·b' + θ'` are the scaled upper bounds. -/
+`bb = 2^T·b`, `bb' = 2^T'·b'` are the scaled upper bounds. -/
 theorem range_binding (hA : ArithOK) {cs : Suite} {π : RangeProof} {g h g' h' n a b a' b' : Int}
     (hn : 1 < n) {tq tq' tq'' : List Draw}
     (hv : rangeVerify cs π g h n a b tq = .ok (true, tq'))
     (hv' : rangeVerify cs π g' h' n a' b' tq = .ok (true, tq'')) :
     ∃ y : Int,
-      powMod g (2 ^ rangeT cs a b * b + tolTheta cs.t cs.l (rangeT cs a b) a b) n = some y ∧
-      powMod g' (2 ^ rangeT cs a' b' * b' + tolTheta cs.t cs.l (rangeT cs a' b') a' b') n = some y ∧
+      powMod g (2 ^ rangeT cs a b * b) n = some y ∧
+      powMod g' (2 ^ rangeT cs a' b' * b') n = some y ∧
       π.E ^ (2 ^ rangeT cs a b) % n = π.E ^ (2 ^ rangeT cs a' b') % n := by
   obtain ⟨-, h1, -, -, -, -, -, -, gaa, gbb, p1, p2, -, e2⟩ := square_bound hA hn hv
   obtain ⟨-, h1', -, -, -, -, -, -, gaa', gbb', q1, q2, -, e2'⟩ := square_bound hA hn hv'
   have hmod : gbb ≡ gbb' [ZMOD n] := e2.symm.trans e2'
   have r1 : 0 ≤ gbb ∧ gbb < n := by
-    by_cases he : 0 ≤ 2 ^ rangeT cs a b * b + tolTheta cs.t cs.l (rangeT cs a b) a b
+    by_cases he : 0 ≤ 2 ^ rangeT cs a b * b
     · rw [hA.powMod_nonneg _ _ _ (by omega) he] at p2
       injection p2 with p2; rw [← p2]
       exact ⟨Int.emod_nonneg _ (by omega), Int.emod_lt_of_pos _ (by omega)⟩
@@ -298,7 +336,7 @@ theorem range_binding (hA : ArithOK) {cs : Suite} {π : RangeProof} {g h g' h' n
         rw [hi] at p2; injection p2 with p2; rw [← p2]
         exact ⟨Int.emod_nonneg _ (by omega), Int.emod_lt_of_pos _ (by omega)⟩
   have r2 : 0 ≤ gbb' ∧ gbb' < n := by
-    by_cases he : 0 ≤ 2 ^ rangeT cs a' b' * b' + tolTheta cs.t cs.l (rangeT cs a' b') a' b'
+    by_cases he : 0 ≤ 2 ^ rangeT cs a' b' * b'
     · rw [hA.powMod_nonneg _ _ _ (by omega) he] at q2
       injection q2 with q2; rw [← q2]
       exact ⟨Int.emod_nonneg _ (by omega), Int.emod_lt_of_pos _ (by omega)⟩
@@ -320,12 +358,12 @@ theorem range_binding_bounds (hA : ArithOK) {cs : Suite} {π : RangeProof} {g h 
     (hn : 1 < n) (hg : Int.gcd g n = 1) {tq tq' tq'' : List Draw}
     (hv : rangeVerify cs π g h n a b tq = .ok (true, tq'))
     (hv' : rangeVerify cs π g h' n a' b' tq = .ok (true, tq'')) :
-    2 ^ rangeT cs a b * b + tolTheta cs.t cs.l (rangeT cs a b) a b
-      = 2 ^ rangeT cs a' b' * b' + tolTheta cs.t cs.l (rangeT cs a' b') a' b' ∨
+    2 ^ rangeT cs a b * b
+      = 2 ^ rangeT cs a' b' * b' ∨
     OrderRelation n g := by
   obtain ⟨y, p, q, -⟩ := range_binding hA hn hv hv'
-  set bb := 2 ^ rangeT cs a b * b + tolTheta cs.t cs.l (rangeT cs a b) a b
-  set bb' := 2 ^ rangeT cs a' b' * b' + tolTheta cs.t cs.l (rangeT cs a' b') a' b'
+  set bb := 2 ^ rangeT cs a b * b
+  set bb' := 2 ^ rangeT cs a' b' * b'
   by_cases hbb : bb = bb'
   · exact Or.inl hbb
   refine Or.inr ?_
@@ -372,5 +410,281 @@ theorem same_secret_binding (hA : ArithOK) {n : Int} (hn : 1 < n)
   obtain ⟨e, he⟩ := rep_of_gcd hn hE
   obtain ⟨f, hf⟩ := rep_of_gcd hn hF
   exact ClRange.same_secret_binding hA hn hu1 hv1 hu2 hv2 he hf hv hv' hc
+
+/-! ### 7. why the remainder bound `b₂` (finding F13)
+
+Pure arithmetic over `Int`/`Nat`, arbitrary `t l` (no suite constants). `T = tolT t l a b`
+`= 2(t+l+1) + bitLen(b−a)` is the model's `rangeT` (`rangeT_eq`), `b₂ = tolB2 T a b`
+`= 2·⌊√(2^T·(b−a))⌋` is the third component of the model's `tolBounds` (`tolBounds_ok_iff`). -/
+
+example (T : Nat) (a b : Int) :
+    tolB2 T a b = 2 * Int.ofNat (isqrt (2 ^ T * (b - a)).toNat) := rfl
+example (t l : Nat) (a b : Int) : tolT t l a b = 2 * (t + l + 1) + bitLen (b - a) := rfl
+
+/-- `2^(t+l+1)·⌊√(2^T·w)⌋ < 2^T` for `w < 2^β`, `T = 2(t+l+1) + β` (naturals). -/
+theorem two_pow_mul_isqrt_lt (hA : ArithOK) (k β w : Nat) (hw : w < 2 ^ β) :
+    2 ^ k * isqrt (2 ^ (2 * k + β) * w) < 2 ^ (2 * k + β) := by
+  have h1 : isqrt (2 ^ (2 * k + β) * w) ^ 2 ≤ 2 ^ (2 * k + β) * w := (hA.isqrt_spec _).1
+  refine lt_of_pow_lt_pow_left₀ 2 (Nat.zero_le _) ?_
+  calc (2 ^ k * isqrt (2 ^ (2 * k + β) * w)) ^ 2
+      = 2 ^ (2 * k) * isqrt (2 ^ (2 * k + β) * w) ^ 2 := by rw [mul_pow, ← pow_mul, mul_comm k 2]
+    _ ≤ 2 ^ (2 * k) * (2 ^ (2 * k + β) * w) := Nat.mul_le_mul_left _ h1
+    _ < 2 ^ (2 * k) * (2 ^ (2 * k + β) * 2 ^ β) :=
+        Nat.mul_lt_mul_of_pos_left (Nat.mul_lt_mul_of_pos_left hw (by positivity)) (by positivity)
+    _ = (2 ^ (2 * k + β)) ^ 2 := by ring
+
+/-- **1 (strict form).** `2^(t+l)·b₂ < 2^T` for every interval `a ≤ b`. -/
+theorem remainder_bound_lt_pow' (hA : ArithOK) (t l : Nat) (a b : Int) (hab : a ≤ b) :
+    2 ^ (t + l) * tolB2 (tolT t l a b) a b < 2 ^ tolT t l a b := by
+  unfold tolB2 tolT
+  set β := bitLen (b - a) with hβ
+  have h2 : ((b - a).toNat : Int) = b - a := Int.toNat_of_nonneg (by omega)
+  have hw : (b - a).toNat < 2 ^ β := by
+    have := lt_two_pow_bitLen (v := b - a) (by omega)
+    rw [← hβ, ← h2] at this
+    exact_mod_cast this
+  have hN : ((2 : Int) ^ (2 * (t + l + 1) + β) * (b - a)).toNat
+      = 2 ^ (2 * (t + l + 1) + β) * (b - a).toNat := by
+    have : (2 : Int) ^ (2 * (t + l + 1) + β) * (b - a)
+        = ((2 ^ (2 * (t + l + 1) + β) * (b - a).toNat : Nat) : Int) := by push_cast; rw [h2]
+    rw [this, Int.toNat_natCast]
+  rw [hN]
+  have key := two_pow_mul_isqrt_lt hA (t + l + 1) β _ hw
+  have key' : (2 : Int) ^ (t + l + 1)
+      * ((isqrt (2 ^ (2 * (t + l + 1) + β) * (b - a).toNat) : Nat) : Int)
+        < 2 ^ (2 * (t + l + 1) + β) := by exact_mod_cast key
+  show (2 : Int) ^ (t + l) * (2 * ((isqrt (2 ^ (2 * (t + l + 1) + β) * (b - a).toNat) : Nat) : Int))
+    < 2 ^ (2 * (t + l + 1) + β)
+  calc (2 : Int) ^ (t + l) * (2 * ((isqrt (2 ^ (2 * (t + l + 1) + β) * (b - a).toNat) : Nat) : Int))
+      = 2 ^ (t + l + 1) * ((isqrt (2 ^ (2 * (t + l + 1) + β) * (b - a).toNat) : Nat) : Int) := by
+        rw [pow_succ]; ring
+    _ < _ := key'
+
+/-- **1. The new tolerance is below the scaling factor, for EVERY interval width**: with
+`T = 2(t+l+1) + bitLen(b−a)` and `b₂ = 2·⌊√(2^T·(b−a))⌋`, the largest accepted response
+`2^(t+l)·b₂ − 1` is below `2^T`. -/
+theorem remainder_bound_lt_pow (hA : ArithOK) (t l : Nat) (a b : Int) (hab : a ≤ b) :
+    2 ^ (t + l) * tolB2 (tolT t l a b) a b - 1 < 2 ^ tolT t l a b := by
+  have := remainder_bound_lt_pow' hA t l a b hab
+  omega
+
+/-- **2. Special-soundness arithmetic of Algorithm 6.** Two accepted responses `D1`, `D1'` to
+distinct challenges `c ≠ c'` (non-negative, as `C mod 2^t` is) for the same secret `x2`
+(`D1 − D1' = x2·(c − c')`) bound the secret: `|x2| ≤ 2^(t+l)·b₂ − 1`. -/
+theorem large_interval_extract_bound {t l : Nat} {b2 c c' D1 D1' x2 : Int} (hb2 : 0 ≤ b2)
+    (hc0 : 0 ≤ c) (hc0' : 0 ≤ c') (hne : c ≠ c')
+    (h1 : c * b2 ≤ D1) (h2 : D1 ≤ 2 ^ (t + l) * b2 - 1)
+    (h1' : c' * b2 ≤ D1') (h2' : D1' ≤ 2 ^ (t + l) * b2 - 1)
+    (hx : D1 - D1' = x2 * (c - c')) : |x2| ≤ 2 ^ (t + l) * b2 - 1 := by
+  have hD0 : 0 ≤ D1 := le_trans (mul_nonneg hc0 hb2) h1
+  have hD0' : 0 ≤ D1' := le_trans (mul_nonneg hc0' hb2) h1'
+  have hd : |D1 - D1'| ≤ 2 ^ (t + l) * b2 - 1 := by rw [abs_le]; constructor <;> linarith
+  have hcc : 1 ≤ |c - c'| := Int.one_le_abs (sub_ne_zero.mpr hne)
+  rw [hx, abs_mul] at hd
+  calc |x2| = |x2| * 1 := (mul_one _).symm
+    _ ≤ |x2| * |c - c'| := mul_le_mul_of_nonneg_left hcc (abs_nonneg _)
+    _ ≤ _ := hd
+
+/-- **3. Soundness arithmetic of the decomposition.** If both scaled distances are a square plus
+a remainder of absolute value below `2^T`, the value is in `[a, b]`. -/
+theorem range_sound_arith {T : Nat} {a b x qa qb ρa ρb : Int}
+    (ha : 2 ^ T * x - 2 ^ T * a = qa ^ 2 + ρa) (hb : 2 ^ T * b - 2 ^ T * x = qb ^ 2 + ρb)
+    (hρa : |ρa| < 2 ^ T) (hρb : |ρb| < 2 ^ T) : a ≤ x ∧ x ≤ b := by
+  have hp : (0 : Int) < 2 ^ T := by positivity
+  rw [abs_lt] at hρa hρb
+  have hqa := sq_nonneg qa
+  have hqb := sq_nonneg qb
+  constructor
+  · by_contra hc
+    have : x + 1 ≤ a := by omega
+    have := mul_le_mul_of_nonneg_left this hp.le
+    nlinarith
+  · by_contra hc
+    have : b + 1 ≤ x := by omega
+    have := mul_le_mul_of_nonneg_left this hp.le
+    nlinarith
+
+/-- **1–3 combined.** Remainders bounded by the extractor bound of
+`large_interval_extract_bound` with the model's `T` and `b₂` force `a ≤ x ≤ b`: the repaired
+parameters leave no slack (expansion rate exactly 1 on integers). -/
+theorem extracted_value_in_range (hA : ArithOK) (t l : Nat) {a b x qa qb ρa ρb : Int} (hab : a ≤ b)
+    (ha : 2 ^ tolT t l a b * x - 2 ^ tolT t l a b * a = qa ^ 2 + ρa)
+    (hb : 2 ^ tolT t l a b * b - 2 ^ tolT t l a b * x = qb ^ 2 + ρb)
+    (hρa : |ρa| ≤ 2 ^ (t + l) * tolB2 (tolT t l a b) a b - 1)
+    (hρb : |ρb| ≤ 2 ^ (t + l) * tolB2 (tolT t l a b) a b - 1) : a ≤ x ∧ x ≤ b := by
+  have h := remainder_bound_lt_pow hA t l a b hab
+  exact range_sound_arith ha hb (lt_of_le_of_lt hρa h) (lt_of_le_of_lt hρb h)
+
+/-- The whole chain for two pairs of accepted responses (one pair per remainder). -/
+theorem extracted_value_in_range' (hA : ArithOK) (t l : Nat) {a b x qa qb ρa ρb : Int}
+    (hab : a ≤ b)
+    (ha : 2 ^ tolT t l a b * x - 2 ^ tolT t l a b * a = qa ^ 2 + ρa)
+    (hb : 2 ^ tolT t l a b * b - 2 ^ tolT t l a b * x = qb ^ 2 + ρb)
+    {ca ca' Da Da' cb cb' Db Db' : Int}
+    (hca : 0 ≤ ca) (hca' : 0 ≤ ca') (hnea : ca ≠ ca')
+    (a1 : ca * tolB2 (tolT t l a b) a b ≤ Da)
+    (a2 : Da ≤ 2 ^ (t + l) * tolB2 (tolT t l a b) a b - 1)
+    (a1' : ca' * tolB2 (tolT t l a b) a b ≤ Da')
+    (a2' : Da' ≤ 2 ^ (t + l) * tolB2 (tolT t l a b) a b - 1)
+    (hxa : Da - Da' = ρa * (ca - ca'))
+    (hcb : 0 ≤ cb) (hcb' : 0 ≤ cb') (hneb : cb ≠ cb')
+    (b1 : cb * tolB2 (tolT t l a b) a b ≤ Db)
+    (b2 : Db ≤ 2 ^ (t + l) * tolB2 (tolT t l a b) a b - 1)
+    (b1' : cb' * tolB2 (tolT t l a b) a b ≤ Db')
+    (b2' : Db' ≤ 2 ^ (t + l) * tolB2 (tolT t l a b) a b - 1)
+    (hxb : Db - Db' = ρb * (cb - cb')) : a ≤ x ∧ x ≤ b :=
+  extracted_value_in_range hA t l hab ha hb
+    (large_interval_extract_bound (tolB2_nonneg _ _ _) hca hca' hnea a1 a2 a1' a2' hxa)
+    (large_interval_extract_bound (tolB2_nonneg _ _ _) hcb hcb' hneb b1 b2 b1' b2' hxb)
+
+/-- the algebra of `old_parameters_accept_out_of_range` with `P = 2^T`, `Q = 2^t`,
+`W = 2^(T+t+l−1)` -/
+theorem old_accept_aux {P Q W b c x2 : Int} (hP : 1 ≤ P) (hQ : 1 ≤ Q) (hb : 1 ≤ b)
+    (hW : P * Q ≤ W) (hcase : 2 * (P * Q) ≤ W ∨ Q ≤ P) (hPW : P ≤ W) (hc0 : 0 ≤ c)
+    (hc1 : c ≤ Q - 1) (hx2 : -P ≤ x2) (hx2' : x2 ≤ 0) :
+    c * b ≤ W * b + x2 * c ∧ W * b + x2 * c ≤ 2 * W * b - P ∧ W * b ≤ 2 * W * b - 1 := by
+  have hxc : -P * c ≤ x2 * c := mul_le_mul_of_nonneg_right hx2 hc0
+  have hxc' : x2 * c ≤ 0 := mul_nonpos_of_nonpos_of_nonneg hx2' hc0
+  have hWb : 0 ≤ W * (b - 1) := mul_nonneg (by linarith) (by linarith)
+  have h1 : c * (b + P) ≤ (Q - 1) * (b + P) := mul_le_mul_of_nonneg_right hc1 (by linarith)
+  have hPQb : P * Q * b ≤ W * b := mul_le_mul_of_nonneg_right hW (by linarith)
+  have hkey : c * (b + P) ≤ W * b := by
+    rcases hcase with h2 | h2
+    · have h2b : 2 * (P * Q) * b ≤ W * b := mul_le_mul_of_nonneg_right h2 (by linarith)
+      have e1 : 0 ≤ (P - 1) * (Q * b) := mul_nonneg (by linarith) (mul_nonneg (by linarith) (by linarith))
+      have e2 : 0 ≤ (P * Q) * (b - 1) := mul_nonneg (mul_nonneg (by linarith) (by linarith)) (by linarith)
+      linarith
+    · have e1 : 0 ≤ (P - 1) * Q * (b - 1) :=
+        mul_nonneg (mul_nonneg (by linarith) (by linarith)) (by linarith)
+      linarith
+  refine ⟨by linarith, by linarith, by linarith⟩
+
+/-- **4. The F13 witness** (arithmetic of the OLD acceptance test
+`c·b ≤ D1 ≤ 2^T·(2^(t+l)·b − 1)`, old bound `b ≥ 1`). For EVERY remainder `x2 ∈ [−2^T, 0]` the one
+masking value `w = 2^(T+t+l−1)·b` (inside the old honest range `[0, 2^T·2^(t+l)·b − 1]`) yields an
+accepted response `D1 = w + x2·c` for EVERY challenge `0 ≤ c < 2^t`. Side condition: `2 ≤ l`, or
+`1 ≤ l` and `t ≤ T` (the model's `T = 2(t+l+1)+bitLen(b−a)` always has `t ≤ T`); for `l = 0`,
+`b = 1` no single `w` serves all challenges. -/
+theorem old_parameters_accept_out_of_range {T t l : Nat} {b c x2 : Int} (hb : 1 ≤ b)
+    (hl : 2 ≤ l ∨ (1 ≤ l ∧ t ≤ T)) (hc0 : 0 ≤ c) (hct : c < 2 ^ t)
+    (hx2 : -(2 ^ T) ≤ x2) (hx2' : x2 ≤ 0) :
+    let w : Int := 2 ^ (T + t + l - 1) * b
+    (0 ≤ w ∧ w ≤ 2 ^ T * 2 ^ (t + l) * b - 1) ∧
+      c * b ≤ w + x2 * c ∧ w + x2 * c ≤ 2 ^ T * (2 ^ (t + l) * b - 1) := by
+  intro w
+  have hW2 : (2 : Int) ^ T * 2 ^ (t + l) = 2 * 2 ^ (T + t + l - 1) := by
+    rw [← pow_add, ← pow_succ']; congr 1; omega
+  have hW1 : (2 : Int) ^ T * 2 ^ t ≤ 2 ^ (T + t + l - 1) := by
+    rw [← pow_add]; exact pow_le_pow_right₀ (by norm_num) (by omega)
+  have hPW : (2 : Int) ^ T ≤ 2 ^ (T + t + l - 1) := pow_le_pow_right₀ (by norm_num) (by omega)
+  have hcase : 2 * ((2 : Int) ^ T * 2 ^ t) ≤ 2 ^ (T + t + l - 1) ∨ (2 : Int) ^ t ≤ 2 ^ T := by
+    rcases hl with hl2 | ⟨-, htT⟩
+    · left; rw [← pow_add, ← pow_succ']; exact pow_le_pow_right₀ (by norm_num) (by omega)
+    · right; exact pow_le_pow_right₀ (by norm_num) htT
+  obtain ⟨k1, k2, k3⟩ := old_accept_aux (one_le_pow₀ (by norm_num)) (one_le_pow₀ (by norm_num)) hb
+    hW1 hcase hPW hc0 (by omega) hx2 hx2'
+  refine ⟨⟨by positivity, ?_⟩, k1, ?_⟩
+  · show 2 ^ (T + t + l - 1) * b ≤ 2 ^ T * 2 ^ (t + l) * b - 1
+    rw [hW2]; linarith
+  · show 2 ^ (T + t + l - 1) * b + x2 * c ≤ 2 ^ T * (2 ^ (t + l) * b - 1)
+    have : (2 : Int) ^ T * (2 ^ (t + l) * b - 1) = 2 * 2 ^ (T + t + l - 1) * b - 2 ^ T := by
+      rw [← hW2]; ring
+    rw [this]; exact k2
+
+/-- Where such a remainder comes from: with the OLD shifted point `bb = 2^T·b + θ`, `0 ≤ θ ≤ 2^T`
+(`tolerance_lt`), the value `x = b + 1` has `bb − 2^T·x = 0² + x2` with `x2 = θ − 2^T ∈ [−2^T, 0]`
+(and `x = a − 1` symmetrically). -/
+theorem old_out_of_range_remainder {T : Nat} {b θ : Int} (h0 : 0 ≤ θ) (hθ : θ ≤ 2 ^ T) :
+    ∃ x2 : Int, (2 ^ T * b + θ) - 2 ^ T * (b + 1) = 0 ^ 2 + x2 ∧ -(2 ^ T) ≤ x2 ∧ x2 ≤ 0 :=
+  ⟨θ - 2 ^ T, by ring, by linarith, by linarith⟩
+
+/-- **F13, concretely**: under the OLD parameters (`θ = tolTheta`, `T = tolT`, bound `b ≥ 1` in
+Algorithms 5/6, `l ≥ 1`) the out-of-range value `x = b + 1` has an upper distance
+`bb − 2^T·x = 0² + x2` whose remainder `x2` is answered acceptably, with ONE fixed masking value `w`
+from the old honest range, for EVERY challenge `0 ≤ c < 2^t`. -/
+theorem old_parameters_accept_b_plus_one (hA : ArithOK) {t l : Nat} {a b : Int} (hab : a ≤ b)
+    (hb : 1 ≤ b) (hl : 1 ≤ l) :
+    let T := tolT t l a b
+    ∃ x2 w : Int, (2 ^ T * b + tolTheta t l T a b) - 2 ^ T * (b + 1) = 0 ^ 2 + x2 ∧
+      0 ≤ w ∧ w ≤ 2 ^ T * 2 ^ (t + l) * b - 1 ∧
+      ∀ c : Int, 0 ≤ c → c < 2 ^ t →
+        c * b ≤ w + x2 * c ∧ w + x2 * c ≤ 2 ^ T * (2 ^ (t + l) * b - 1) := by
+  intro T
+  obtain ⟨x2, hd, h1, h2⟩ := old_out_of_range_remainder (T := T) (b := b)
+    (tolTheta_nonneg t l T a b) (ClRange.tolerance_lt hA a b t l hab).le
+  have htT : t ≤ T := by show t ≤ tolT t l a b; unfold tolT; omega
+  refine ⟨x2, 2 ^ (T + t + l - 1) * b, hd, ?_, ?_, fun c hc0 hct => ?_⟩
+  · exact (old_parameters_accept_out_of_range hb (Or.inr ⟨hl, htT⟩) (c := 0) le_rfl
+      (by positivity) h1 h2).1.1
+  · exact (old_parameters_accept_out_of_range hb (Or.inr ⟨hl, htT⟩) (c := 0) le_rfl
+      (by positivity) h1 h2).1.2
+  · exact (old_parameters_accept_out_of_range hb (Or.inr ⟨hl, htT⟩) hc0 hct h1 h2).2
+
+/-- With the NEW points a value outside `[a, b]` has a scaled distance `≤ −2^T`, so in ANY
+decomposition `q² + x2` of it the remainder is `≤ −2^T`. -/
+theorem out_of_range_remainder_le {T : Nat} {b x q x2 : Int} (hx : b < x)
+    (hd : 2 ^ T * b - 2 ^ T * x = q ^ 2 + x2) : x2 ≤ -(2 ^ T) := by
+  have hp : (0 : Int) < 2 ^ T := by positivity
+  have : b + 1 ≤ x := by omega
+  have := mul_le_mul_of_nonneg_left this hp.le
+  have := sq_nonneg q
+  nlinarith
+
+theorem out_of_range_remainder_le' {T : Nat} {a x q x2 : Int} (hx : x < a)
+    (hd : 2 ^ T * x - 2 ^ T * a = q ^ 2 + x2) : x2 ≤ -(2 ^ T) := by
+  have hp : (0 : Int) < 2 ^ T := by positivity
+  have : x + 1 ≤ a := by omega
+  have := mul_le_mul_of_nonneg_left this hp.le
+  have := sq_nonneg q
+  nlinarith
+
+/-- **5a.** With the NEW test `c·b₂ ≤ D1 ≤ 2^(t+l)·b₂ − 1`, a response `D1 = w + x2·c` for a
+remainder `x2 ≤ −2^T` is accepted only if the masking value was chosen in the window
+`c·(b₂ + 2^T) ≤ w ≤ 2^(t+l)·b₂ − 1 + c·(−x2)` around `−x2·c` (the cheater is free to choose `w`,
+but must aim at the challenge). -/
+theorem new_parameters_reject_out_of_range {T t l : Nat} {b2 c w x2 : Int} (hc0 : 0 ≤ c)
+    (hx2 : x2 ≤ -(2 ^ T))
+    (h1 : c * b2 ≤ w + x2 * c) (h2 : w + x2 * c ≤ 2 ^ (t + l) * b2 - 1) :
+    c * (b2 + 2 ^ T) ≤ w ∧ w ≤ 2 ^ (t + l) * b2 - 1 + c * (-x2) := by
+  have := mul_le_mul_of_nonneg_right hx2 hc0
+  constructor <;> nlinarith
+
+/-- **5b. At most one challenge per masking value** (any bound `b₂ ≥ 0` whose tolerance
+`2^(t+l)·b₂ − 1` is below `2^T`): a remainder `x2 ≤ −2^T` and one masking value `w` cannot pass the
+new test for two different challenges `0 ≤ c < c'`. -/
+theorem at_most_one_challenge {T t l : Nat} {b2 c c' w x2 : Int} (hb2 : 0 ≤ b2)
+    (htol : 2 ^ (t + l) * b2 - 1 < 2 ^ T) (hc0 : 0 ≤ c) (hcc : c < c') (hx2 : x2 ≤ -(2 ^ T))
+    (h1 : c * b2 ≤ w + x2 * c) (h2 : w + x2 * c ≤ 2 ^ (t + l) * b2 - 1)
+    (h1' : c' * b2 ≤ w + x2 * c') (h2' : w + x2 * c' ≤ 2 ^ (t + l) * b2 - 1) : False := by
+  have hd : 1 ≤ c' - c := by omega
+  -- `(c' − c)·(−x2) ≤ 2^(t+l)·b₂ − 1 − c'·b₂`
+  have hp : (0 : Int) < 2 ^ T := by positivity
+  have h3 : (c' - c) * (-x2) ≤ 2 ^ (t + l) * b2 - 1 - c' * b2 := by linarith
+  have h4 : (2 : Int) ^ T ≤ (c' - c) * (-x2) := by
+    have := mul_le_mul_of_nonneg_right hd (by linarith : (0 : Int) ≤ -x2)
+    linarith
+  have h5 : 0 ≤ c' * b2 := mul_nonneg (by omega) hb2
+  linarith
+
+/-- 5b for the model's parameters: for every interval `a ≤ b` and every `t l`, an out-of-range
+remainder (`x2 ≤ −2^T`, see `out_of_range_remainder_le`) can be answered for at most one challenge
+value per masking value, i.e. with probability `≤ 2^(−t)` per attempt in the random-oracle reading
+(that reading is not formalised). -/
+theorem at_most_one_challenge_model (hA : ArithOK) (t l : Nat) {a b c c' w x2 : Int} (hab : a ≤ b)
+    (hc0 : 0 ≤ c) (hcc : c < c') (hx2 : x2 ≤ -(2 ^ tolT t l a b))
+    (h1 : c * tolB2 (tolT t l a b) a b ≤ w + x2 * c)
+    (h2 : w + x2 * c ≤ 2 ^ (t + l) * tolB2 (tolT t l a b) a b - 1)
+    (h1' : c' * tolB2 (tolT t l a b) a b ≤ w + x2 * c')
+    (h2' : w + x2 * c' ≤ 2 ^ (t + l) * tolB2 (tolT t l a b) a b - 1) : False :=
+  at_most_one_challenge (tolB2_nonneg _ _ _) (remainder_bound_lt_pow hA t l a b hab) hc0 hcc hx2
+    h1 h2 h1' h2'
+
+/-- cl1024 (`t = 128`, `l = 40`) and the attribute interval `[0, 2^256 − 1]`: `T = 594`, and the
+largest accepted response is below `2^594`. -/
+example : tolT 128 40 0 (2 ^ 256 - 1) = 594 := by decide
+example (hA : ArithOK) :
+    2 ^ (128 + 40) * tolB2 (tolT 128 40 0 (2 ^ 256 - 1)) 0 (2 ^ 256 - 1) - 1
+      < 2 ^ tolT 128 40 0 (2 ^ 256 - 1) :=
+  remainder_bound_lt_pow hA 128 40 _ _ (by norm_num)
 
 end Zk.C16
